@@ -132,7 +132,7 @@ def monitor(scn, sobj, rep, sf, ck):
     frames = sobj.meta["frames"]
     own, mtu = sobj.meta["own"], sobj.meta["mtu"]
     mm = MapperModel()
-    cap = G.cap_emit(mtu)
+    cap = G.cap_emit_wire(mtu)
     judged = 0
     eth_seen = set()      # Ethernet sources the active mapper has used in this session
     for idx, inp in enumerate(scn.inputs):
@@ -144,7 +144,7 @@ def monitor(scn, sobj, rep, sf, ck):
             rep.count("address_changed_mid_history")
         if idx in sobj.meta.get("mtu_changes", {}):
             mtu = sobj.meta["mtu_changes"][idx]
-            cap = G.cap_emit(mtu)
+            cap = G.cap_emit_wire(mtu)
             rep.count("mtu_changed_mid_history")
         was = (mm.state, mm.mapper)
         mm.step(fr)
